@@ -25,7 +25,8 @@ ActivePeers, the only broadcast Sender lives in ActivePeersInner (so subscribers
 (5) panic inventory of the manager / teardown / API code with re-checked justifications; (6) ownership
 across suspension points - no future other than the tasks shutdown() itself terminates owns the strong
 peer map (and with it the event sender) or a clone of the user's service while suspended at an await. The assert
-on an empty peer map in shutdown() is not dischargeable and is reported as a known finding.
+on an empty peer map in shutdown() is not dischargeable and is reported as a known finding; (7) closed world of task
+creation - every spawn in the library is the manager task or goes onto one of the three JoinSets shutdown terminates.
 """
 TRUSTED = ["tokio: JoinSet::shutdown/abort semantics, yield_now returns Pending once, mpsc/oneshot close semantics", "quinn: Endpoint::close / wait_idle / rebind"]
 NOT_DECIDED = ["latency ('within the configured bound' — only the presence of the bound is decided)", "OS socket re-bindability", "remote peers observing the disconnect",
